@@ -102,7 +102,9 @@ Fixpoint defs_eqb (a b : defs) : bool :=
 Definition doc_eqb (a b : schema_doc) : bool :=
   (jschema_eqb (sd_root a) (sd_root b) && defs_eqb (sd_defs a) (sd_defs b))%bool.
 
-(* names of the $defs / properties on which two documents differ (for the finding report) *)
+(* where two documents differ (for the finding report): added (+) / removed (-) / changed (~) members of
+   `properties` and `$defs`; a changed definition that is a oneOf on both sides is opened one level:
+   the differing alternatives by position, and inside them the added / removed / changed properties *)
 Fixpoint defs_diff (a b : defs) : list string :=
   match a with
   | [] => map (fun kv => "+" +++ fst kv) b
@@ -116,9 +118,37 @@ Fixpoint defs_diff (a b : defs) : list string :=
   end.
 Definition props_of (s : jschema) : defs :=
   match s with Sch _ p _ _ _ _ _ _ _ _ _ _ _ => p | _ => [] end.
+Definition oneof_of (s : jschema) : option (list jschema) :=
+  match s with Sch _ _ _ _ _ _ o _ _ _ _ _ _ => o | _ => None end.
+Fixpoint alts_diff (i : nat) (a b : list jschema) : list string :=
+  match a, b with
+  | [], [] => []
+  | x :: a', y :: b' =>
+      (if jschema_eqb x y then []
+       else map (fun d => "oneOf/" +++ N_to_string (N.of_nat i) +++ "/properties:" +++ d) (defs_diff (props_of x) (props_of y)))
+      ++ alts_diff (S i) a' b'
+  | _, _ => ["oneOf:length"]
+  end.
+Definition open_def (a b : defs) (k : string) : list string :=
+  match find (fun kv => String.eqb (fst kv) k) a, find (fun kv => String.eqb (fst kv) k) b with
+  | Some (_, x), Some (_, y) =>
+      match oneof_of x, oneof_of y with
+      | Some ax, Some ay => map (fun d => k +++ "/" +++ d) (alts_diff 0 ax ay)
+      | _, _ => []
+      end
+  | _, _ => []
+  end.
 Definition doc_diff (shipped generated : schema_doc) : list string :=
   map (fun x => "properties:" +++ x) (defs_diff (props_of (sd_root shipped)) (props_of (sd_root generated)))
-  ++ map (fun x => "$defs:" +++ x) (defs_diff (sd_defs shipped) (sd_defs generated)).
+  ++ (if list_eqb String.eqb (match sd_root shipped with Sch _ _ r _ _ _ _ _ _ _ _ _ _ => r | _ => [] end)
+                             (match sd_root generated with Sch _ _ r _ _ _ _ _ _ _ _ _ _ => r | _ => [] end)
+      then [] else ["required"])
+  ++ flat_map (fun d => ("$defs:" +++ d)
+                        :: match d with
+                           | String "~"%char k => map (fun x => "$defs:" +++ x) (open_def (sd_defs shipped) (sd_defs generated) k)
+                           | _ => []
+                           end)
+              (defs_diff (sd_defs shipped) (sd_defs generated)).
 
 (* ---------- validation ---------- *)
 Definition has_type (t : jtype) (j : json) : bool :=
